@@ -316,6 +316,40 @@ def check_overlapping(U, a, enc, hist, acc):
         U.restore(enc)
 
 
+def wide_parent_checks(acc):
+    """Sibling order of copies when a non-root parent has 10+ children (some with children of their own): positions beyond 9."""
+    from pjplan import Task, WBS
+    for n in (10, 12, 25):
+        w = WBS()
+        w.title = 'src'
+        top = Task(1, name='top')
+        w.roots.append(top)
+        phase = Task(100, name='phase')
+        top.children.append(phase)
+        kids = [Task(101 + i, name='k%d' % i) for i in range(n)]
+        phase.children = kids
+        kids[-1].children.append(Task(900, name='g1'))
+        kids[1].children.append(Task(901, name='g2'))
+        kids[n - 1].predecessors.append(kids[0])
+        want = [t.id for t in w.tasks]
+        for name, fn in (('clone()', lambda: w.clone()), ('clone() again', lambda: w.clone()), ('subtree(phase)', lambda: w.subtree(phase)),
+                         ('subtree([top])', lambda: w.subtree([top]))):
+            acc.count('copies')
+            acc.count('wide_parent_cases')
+            case = {'call': name, 'children_of_phase': n}
+            try:
+                c = fn()
+            except Exception as ex:  # noqa
+                acc.violation('C10', f'{name.split("(")[0]}/raised-{type(ex).__name__}/wide-parent', f'{name} raised {ex}', case)
+                continue
+            exp = want if 'phase' not in name else want[1:]
+            got = [t.id for t in c.tasks]
+            if got != exp:
+                acc.violation('C10', f'{name.split("(")[0]}/members-differ/wide-parent', f'{name}: task order of the copy {got[:14]}..., source {exp[:14]}...', case)
+            if [t.id for t in w.tasks] != want:
+                acc.violation('C10', f'{name.split("(")[0]}/source-changed-by-call/wide-parent', 'the source order changed', case)
+
+
 def _work(chunk):
     U, states = _U, _STATES
     acc = runtime.Acc()
@@ -371,6 +405,7 @@ def run(rep):
         runtime.run_chunks(_work, runtime.split(list(st.items()), runtime.n_workers() * 3), rep.acc)
         states += len(st)
         per.append({'universe': uname, 'start_states_built_directly': len(st), 'link_bound': ml})
+    wide_parent_checks(rep.acc)
     c = rep.acc.counters
     rep.coverage.update({
         'states': states, 'transitions': trans + c['copies'] + c['independence_checks'] * 2,
